@@ -8,8 +8,13 @@ LAWS = ["Trichotomy", "Irreflexive", "Antisymmetric", "Transitive", "EqTransitiv
 OPN = ["==", "!=", "<", "<=", ">", ">="]
 
 
-def consts(D, ext, vals, maxne, triples, emit):
-    return {"CD": D, "CMaxExt": ext, "CVals": set(vals), "CMaxNE": maxne, "WithC": triples, "CEmit": emit}
+def consts(D, ext, vals, maxne, triples, emit, dbl=False):
+    return {"CD": D, "CMaxExt": ext, "CVals": set(vals), "CMaxNE": maxne, "WithC": triples, "CEmit": emit, "DoubleSem": dbl}
+
+
+# kinds whose extents are exact also without elements (views report what they were sliced to; owning arrays normalise
+# a shape with a zero extent, which is why == between element-free ARRAYS is only checked for consistency with !=)
+EXACT_EMPTY = {"padded_subblock", "padded_subblock_long", "const_padded_subblock"}
 
 
 def cline(pid, rec):
@@ -23,9 +28,11 @@ def run(tier):
     rep = vlib.Report("C07", tier)
     wd = vlib.workdir("c07")
     exe = os.path.join(wd, "replay_compare")
-    ok, text = vlib.compile_cpp(os.path.join(vlib.HARNESS, "replay_compare.cpp"), exe)
-    if not ok:
-        raise vlib.Broken("replay_compare.cpp does not compile:\n" + text[-3000:])
+    exe_dbl = os.path.join(wd, "replay_compare_double")
+    for (ok, text) in vlib.compile_many([(os.path.join(vlib.HARNESS, "replay_compare.cpp"), exe, []),
+                                          (os.path.join(vlib.HARNESS, "replay_compare.cpp"), exe_dbl, ["-DVERIF_CMP_DOUBLE"])]):
+        if not ok:
+            raise vlib.Broken("replay_compare.cpp does not compile:\n" + text[-3000:])
     # 1. laws on the model (triples)
     laws = [("c07_laws_d1", consts(1, 3, [0, 1], 3, True, False)), ("c07_laws_d2", consts(2, 2, [0, 1], 4, True, False))]
     if tier == "thorough":
@@ -42,7 +49,10 @@ def run(tier):
              ("c07_pairs_d1", consts(1, 3, [0, 1, 2], 3, False, True), []),
              ("c07_pairs_d2", consts(2, 2, [0, 1], 4, False, True), []),
              ("c07_pairs_d2w", consts(2, 3, [0, 1], 6, False, True), ["lean"]),
-             ("c07_pairs_d3", consts(3, 2, [0, 1], 4, False, True), ["lean"])]
+             ("c07_pairs_d3", consts(3, 2, [0, 1], 4, False, True), ["lean"]),
+             # floating-point elements: signed zeros are equal, a NaN equals nothing (elements are compared with ==, not as bytes)
+             ("c07_pairs_d1_double", consts(1, 2, [0, 1, 2, 3], 2, False, True, True), []),
+             ("c07_pairs_d2_double", consts(2, 2, [0, 2, 3], 2, False, True, True), ["lean"])]
     if tier == "thorough":
         pairs += [("c07_pairs_d3w", consts(3, 3, [0, 1], 6, False, True), ["lean"]),
                   ("c07_pairs_d4", consts(4, 2, [0, 1], 4, False, True), ["lean"]),
@@ -58,7 +68,7 @@ def run(tier):
         for rec in vlib.emitted(res.out_path):
             exps.append(rec)
             lines.append(cline(len(exps) - 1, rec))
-        obs, crashes = vlib.run_replayer_chunks(exe, lines, wd, name, args=args)
+        obs, crashes = vlib.run_replayer_chunks(exe_dbl if c["DoubleSem"] else exe, lines, wd, name, args=args)
         for cr in crashes:
             if cr["id"] is None:
                 raise vlib.Broken("replayer failed: " + cr["stderr"][-800:])
@@ -79,6 +89,7 @@ def run(tier):
             for ka, kb, bits in o["res"]:
                 per_kind[ka + "|" + kb] = per_kind.get(ka + "|" + kb, 0) + 1
                 same_elem = ("long" in ka) == ("long" in kb)
+                exact_empty = ka in EXACT_EMPTY and kb in EXACT_EMPTY
                 for half, want in ((bits[:6], want_ab), (bits[6:], want_ba)):
                     for k in range(6):
                         g = half[k]
@@ -86,6 +97,14 @@ def run(tier):
                             continue        # ordering between different element types is not provided
                         if exp["ordered"] == 0 and k >= 2:
                             continue        # empty operands: only == / != consistency
+                        if exp["ordered"] == 0 and (exact_empty or exp.get("nan")) and k < 2:
+                            if g != want[k]:
+                                good = False
+                                rep.violation({"kind": "wrong_result", "op": OPN[k], "D": exp["D"], "same_shape": exp["a"]["shape"] == exp["b"]["shape"],
+                                               "ka": ka, "kb": kb, "nan": bool(exp.get("nan"))},
+                                              {"pair": exp, "kinds": [ka, kb], "observed": bits, "prescribed": want_ab + want_ba})
+                                break
+                            continue
                         if exp["ordered"] == 0 and g in "01":
                             okk = (half[0] != half[1]) if (half[0] in "01" and half[1] in "01") else False
                             if not okk:
